@@ -116,6 +116,27 @@ Definition class_name (s : str) : str :=
   let low := map lower_ascii c2 in
   if is_kw c2 || is_kw low || is_reserved low then c2 ++ [95] else c2.
 
+(* ---------- IRSchema.__post_init__ (ir.py): the name stored in an IRSchema ----------
+   Before the F20k fix: always sanitize_class_name(name).  With it (post_init_keeps_output, read from the source by
+   the translator): a name that fully matches _?(?:[A-Z][a-z]*|[0-9]+)+_? (the shape of sanitiser output) and that
+   a second sanitisation would only re-case is kept. *)
+Fixpoint groups_ok (after_letter : bool) (s : str) : bool :=   (* (?:[A-Z][a-z]*|[0-9]+)* from a group boundary *)
+  match s with
+  | [] => true
+  | c :: r => if is_upper c then groups_ok true r
+              else if is_lower c then after_letter && groups_ok true r
+              else if is_digit c then groups_ok false r
+              else false
+  end.
+Definition output_shape (s : str) : bool :=
+  let s1 := match s with c :: r => if c =? 95 then r else s | [] => s end in
+  let s2 := match rev s1 with c :: r => if c =? 95 then rev r else s1 | [] => s1 end in
+  nonempty s2 && groups_ok false s2.
+Definition ir_name (name : str) : str :=
+  let sanitized := class_name name in
+  if post_init_keeps_output && output_shape name && str_eqb (map lower_ascii sanitized) (map lower_ascii name)
+  then name else sanitized.
+
 (* ---------- sanitize_method_name ---------- *)
 Definition is_brace (c : N) : bool := (c =? 123) || (c =? 125).
 Definition is_lower_or_digit (c : N) : bool := is_lower c || is_digit c.
